@@ -389,3 +389,9 @@ func Leaked() string {
 }
 
 func Deviations(k int) {}
+
+// Amplify: see vf_sym.go.
+func Amplify(sym, native int) int { return native }
+
+// Stub: natively the real function runs.
+func Stub(name string, impl any) {}
